@@ -28,10 +28,30 @@ package id
 //@   requires fallbackStr(p, a) == fallbackStr(p, b)
 //@   ensures a == b
 
+// Different fallback generators: each draws its own number from a process-wide counter (one atomic add), and that
+// number leads its prefix - the clock alone does not tell apart two generators created at the same instant.
+//@ spec func fallbackPrefix(seq int, rest string) string = itoa(seq) + "-" + rest
 //@ func NewFallbackGenerator
 //@   prop C20
-//@   modifies nothing
+//@   modifies GV:id.fallbackSeq
 //@   ensures tag(result) != 0 && is(result, *fallbackGenerator) && fresh(result.(*fallbackGenerator)) && result.(*fallbackGenerator).counter == 0
+//@   ensures [every-generator-draws-its-own-number-from-a-process-wide-counter] fallbackSeq == old(fallbackSeq) + 1 &&
+//@             exists rest string :: result.(*fallbackGenerator).prefix == fallbackPrefix(old(fallbackSeq) + 1, rest)
+
+//@ type $globals
+//@   field fallbackSeq atomic rmw
+
+// A decimal number followed by a dash is uniquely decodable (no digit is a dash): assumed of the uninterpreted string sort.
+//@ axiom forall a int, b int, x string, y string :: a >= 0 && b >= 0 && itoa(a) + ("-" + x) == itoa(b) + ("-" + y) ==> a == b
+// String concatenation is associative.
+//@ axiom forall x string, y string, z string :: (x + y) + z == x + (y + z)
+
+// Identifiers of generators with different numbers differ, whatever the clock said and however many each has issued.
+//@ lemma fallbackIdsOfDifferentGeneratorsDistinct(s1 int, s2 int, r1 string, r2 string, a int, b int)
+//@   prop C20
+//@   requires s1 >= 0 && s2 >= 0
+//@   requires fallbackStr(fallbackPrefix(s1, r1), a) == fallbackStr(fallbackPrefix(s2, r2), b)
+//@   ensures s1 == s2
 
 // The counter is advanced by one atomic read-modify-write; it is never stored to (a Load followed by a Store
 // would let two concurrent draws obtain the same value).
